@@ -39,9 +39,13 @@ def Uamiv.nspec (f : Uamiv) : Nat := f.species.length
 
 def chars (l : List Nat) : List Word := l.map charWord
 
+/-- one data record: the constant 1, the species name, ny*nx values -/
+def dataRec (spc : List Nat) (d : List Word) : List Word := 1 :: (chars spc ++ d)
+
+def speciesRecords (p : List Nat × List (List Word)) : List (List Word) := p.2.map (dataRec p.1)
+
 def stepRecords (species : List (List Nat)) (s : Step) : List (List Word) :=
-  [s.ibdate, s.btime, s.iedate, s.etime] ::
-    (List.zip species s.data).flatMap (fun (spc, lays) => lays.map (fun d => [1] ++ chars spc ++ d))
+  [s.ibdate, s.btime, s.iedate, s.etime] :: (List.zip species s.data).flatMap speciesRecords
 
 /-- the records of a file, in order (the reference encoder of C09) -/
 def Uamiv.records (f : Uamiv) : List (List Word) :=
@@ -137,36 +141,39 @@ def readStep (nspec nz cells : Nat) (blk : List Word) : Step :=
       ((body.drop (s * spcWords + z * (13 + cells))).drop 12).take cells))
   ⟨blk.getD 1 0, blk.getD 2 0, blk.getD 3 0, blk.getD 4 0, data⟩
 
+def hNspec (w : List Word) : Nat := w.getD 72 0
+def hNx (w : List Word) : Nat := w.getD 86 0
+def hNy (w : List Word) : Nat := w.getD 87 0
+def hNz (w : List Word) : Nat := max (w.getD 88 0) 1
+def hOff (w : List Word) : Nat := dataOffset (hNspec w)
+def hBlk (w : List Word) : Nat := blockWords (hNspec w) (hNz w) (hNx w) (hNy w)
+
+/-- what the reader presents when it found `nt` whole time blocks -/
+def mkView (w : List Word) (nt : Nat) : MMView :=
+  { nspec := hNspec w, nx := hNx w, ny := hNy w, nz := hNz w,
+    hdr := (w.drop 1).take 76, grid := (w.drop 79).take 15,
+    species := (splitEvery 10 (hNspec w) ((w.drop 102).take (10 * hNspec w))).map (·.map wordChar),
+    steps := (List.range nt).map (fun t =>
+      readStep (hNspec w) (hNz w) (hNx w * hNy w) (((w.drop (hOff w)).drop (t * hBlk w)).take (hBlk w))) }
+
 /-- `words` = the whole 4-byte words of the file, `extra` = remaining bytes (0..3) -/
 def decodeMM (words : List Word) (extra : Nat) : Except RErr MMView :=
   let size := 4 * words.length + extra
   if size < 404 then .error .mmapErr else
-  let nspec := words.getD 72 0
-  if size < 408 + 40 * nspec then .error .mmapErr else
-  let nx := words.getD 86 0
-  let ny := words.getD 87 0
-  let nz := max (words.getD 88 0) 1
-  let off := dataOffset nspec
-  let blk := blockWords nspec nz nx ny
-  if size < 4 * off then .error .partialTime else
-  let avail := size - 4 * off
-  if avail % (4 * blk) ≠ 0 then .error .partialTime else
-  let nt := avail / (4 * blk)
-  if nt = 0 then .error .noSteps else
-  let body := words.drop off
-  .ok { nspec := nspec, nx := nx, ny := ny, nz := nz,
-        hdr := (words.drop 1).take 76, grid := (words.drop 79).take 15,
-        species := (splitEvery 10 nspec ((words.drop 102).take (10 * nspec))).map (·.map wordChar),
-        steps := (List.range nt).map (fun t => readStep nspec nz (nx * ny) ((body.drop (t * blk)).take blk)) }
+  if size < 408 + 40 * hNspec words then .error .mmapErr else
+  if size < 4 * hOff words then .error .partialTime else
+  if (size - 4 * hOff words) % (4 * hBlk words) ≠ 0 then .error .partialTime else
+  if (size - 4 * hOff words) / (4 * hBlk words) = 0 then .error .noSteps else
+  .ok (mkView words ((size - 4 * hOff words) / (4 * hBlk words)))
 
 /-! ### time conventions -/
 
 /-- YYYYJJJ → YYJJJ as the writers store it: `d % (d // 100000 * 100000)` -/
 def encDate (d : Nat) : Nat := d % (d / 100000 * 100000)
 
-/-- `ConvertCAMxTime` on dates: the century is chosen once for the whole file -/
+/-- `ConvertCAMxTime` on dates: two-digit years 70-99 are 1970-1999, 00-69 are 2000-2069 -/
 def decDates (ds : List Int) : List Int :=
-  if ds.any (· < 70000) then ds.map (· + 2000000) else ds.map (· + 1900000)
+  ds.map (fun d => if d < 70000 then d + 2000000 else d + 1900000)
 
 /-- `ConvertCAMxTime` on times: multiply by 100 until the largest is at least 10000 -/
 def scaleTimes : Nat → List Int → List Int
@@ -183,6 +190,15 @@ def convertTime (dates : List Word) (times : List Word) : List (Int × Int) :=
   List.zip ds ts
 
 /-! ### the library writer (`uamiv/Write.py ncf2uamiv`) on whole-hour inputs -/
+
+/-- `_add_days`: add days to a YYJJJ date (two-digit year) rolling over the end of the year -/
+def addDaysGo : Nat → Nat → Nat → Nat
+  | 0, yy, jjj => yy * 1000 + jjj
+  | fuel + 1, yy, jjj =>
+    let ylen := if yy % 4 = 0 then 366 else 365
+    if jjj > ylen then addDaysGo fuel ((yy + 1) % 100) (jjj - ylen) else yy * 1000 + jjj
+
+def addDays (d n : Nat) : Nat := addDaysGo (n / 365 + 2) (d / 1000) (d % 1000 + n)
 
 structure WriteIn where
   name : List Nat
@@ -202,7 +218,7 @@ def writerContent (i : WriteIn) : Uamiv :=
     | some e => (e.map (fun p => encDate p.1), e.map (fun p => p.2 / 10000))
     | none =>
       let h2 := hs.map (· + i.tstepHours)
-      (List.zipWith (fun d h => d + h / 24) ds h2, h2.map (· % 24))
+      (List.zipWith (fun d h => addDays d (h / 24)) ds h2, h2.map (· % 24))
   let steps := (List.zip (List.zip (List.zip ds hs) (List.zip de he)) i.data).map
     (fun (((d, h), (d2, h2)), dat) => (⟨d, f32OfNat h, d2, f32OfNat h2, dat⟩ : Step))
   { name := i.name, note := i.note, itzon := i.itzon,
